@@ -34,7 +34,10 @@
      CWBegin i     `request = self.requests[0]`
      CWWrite i     one write_soon(data) of the task of that request: bytes of
                    its FINAL response are appended to the output buffers
-     CWEnd i c     task.service() is over; c = task.close_on_finish
+     CWEnd i c     task.service() is over; c = task.close_on_finish (also the case in
+                   which the task is not executed at all: since fix 64d926d
+                   `if self.connected and not self.will_close:` ... else
+                   close_on_finish = True -- zero CWWrite steps, then CWEnd i true)
      CWClose i     close branch: `with self.requests_lock: close_when_flushed =
                    True; ...; self.requests = []`
      CWKeep i      keep branch: `with self.requests_lock: self.requests.pop(0);
